@@ -305,12 +305,17 @@ def special_pairs(rng):
     """constructed configurations (coordinates multiples of 6)"""
     u = 6 * rng.choice([1, 1, 2, 5])
     k = rng.choice(['hole_on_edge', 'hole_on_vertex', 'two_holes', 'shared_edge', 'mp_touch', 'empties', 'zero_len', 'line_cross_vertex',
-                    'three_edges', 'gc_cover', 'ring_line', 'hole_on_edge', 'hole_on_edge'])
+                    'three_edges', 'gc_cover', 'ring_line', 'hole_on_edge', 'hole_on_edge', 'typed_empty', 'gc_point_outside', 'closed_open_lines', 'line_touch_line'])
     S = lambda pts: [(x * u, y * u) for x, y in pts]
     if k == 'hole_on_edge':          # F21: a hole touching the interior of a shell edge
         A = ('Polygon', [S([(0, 0), (4, 0), (4, 4), (0, 4), (0, 0)]), S([(2, 0), (3, 1), (1, 1), (2, 0)])])
-        if rng.random() < 0.3:
+        c = rng.random()
+        if c < 0.25:
             A = ('MultiPolygon', [('Polygon', [S([(0, 0), (4, 0), (4, 4), (0, 4), (0, 0)])]), ('Polygon', [S([(2, 0), (3, -1), (1, -1), (2, 0)])])])
+        elif c < 0.4:
+            A = ('GeometryCollection', [A])
+        elif c < 0.5:
+            A = ('GeometryCollection', [A, ('Point', S([(9, 9)])[0])])
         B = rng.choice([('LineString', S([(0, 0), (4, 0)])), ('LineString', S([(1, 0), (3, 0)])), ('LineString', S([(2, 0), (4, 0)])),
                         ('Polygon', [S([(0, 0), (4, 0), (4, -2), (0, -2), (0, 0)])]), ('Point', S([(2, 0)])[0]),
                         ('LineString', S([(2, -1), (2, 0), (2, 1)])), ('Polygon', [S([(2, 0), (3, 1), (1, 1), (2, 0)])]),
@@ -340,6 +345,36 @@ def special_pairs(rng):
                         ('GeometryCollection', [('Polygon', []), ('Point', (u, u))])])
         B = rng.choice([('Point', None), ('Point', (0, 0)), ('LineString', S([(0, 0), (1, 1)])), ('Polygon', [S([(0, 0), (2, 0), (0, 2), (0, 0)])]), ('GeometryCollection', []),
                         ('MultiPolygon', []), ('LineString', []), ('GeometryCollection', [('LineString', []), ('Polygon', [])])])
+    elif k == 'typed_empty':         # collections whose type dimension comes from an EMPTY element
+        sq = S([(0, 0), (4, 0), (4, 4), (0, 4), (0, 0)])
+        A = rng.choice([('GeometryCollection', [('Polygon', []), ('Point', S([(1, 1)])[0])]), ('GeometryCollection', [('Polygon', []), ('LineString', S([(1, 1), (3, 3)]))]),
+                        ('GeometryCollection', [('LineString', []), ('Point', S([(1, 1)])[0])]), ('GeometryCollection', [('MultiPolygon', []), ('MultiPoint', [('Point', S([(1, 1)])[0]), ('Point', S([(9, 9)])[0])])]),
+                        ('GeometryCollection', [('Polygon', []), ('LineString', S([(1, 1), (1, 1)]))]), ('MultiPolygon', [('Polygon', []), ('Polygon', [sq])]),
+                        ('MultiLineString', [('LineString', []), ('LineString', S([(1, 1), (1, 1)]))]), ('LineString', S([(1, 1), (1, 1)]))])
+        B = rng.choice([('Point', None), ('Polygon', []), ('GeometryCollection', []), ('Point', S([(1, 1)])[0]), ('Point', S([(7, 7)])[0]), ('Polygon', [sq]), ('LineString', S([(0, 0), (4, 4)])),
+                        ('LineString', S([(5, 5), (6, 6)])), ('Polygon', [S([(5, 5), (8, 5), (8, 8), (5, 5)])]), ('MultiPolygon', []), ('LineString', []),
+                        ('GeometryCollection', [('Polygon', []), ('Point', S([(1, 1)])[0])])])
+    elif k == 'gc_point_outside':    # mixed collection: an element covers B, a point / line element lies elsewhere
+        sq = S([(0, 0), (6, 0), (6, 6), (0, 6), (0, 0)])
+        extra = rng.choice([('Point', S([(9, 9)])[0]), ('LineString', S([(9, 9), (9, 12)])), ('MultiPoint', [('Point', S([(9, 9)])[0]), ('Point', S([(3, 3)])[0])]), ('Point', S([(6, 3)])[0]),
+                            ('LineString', S([(0, 0), (6, 0), (6, 6), (0, 6), (0, 0)])), ('LineString', S([(6, 3), (9, 3)]))])
+        A = ('GeometryCollection', rng.choice([[('Polygon', [sq]), extra], [extra, ('Polygon', [sq])], [('LineString', S([(0, 0), (6, 0), (6, 6), (0, 6), (0, 0)])), extra]]))
+        B = rng.choice([('Polygon', [S([(1, 1), (3, 1), (3, 3), (1, 3), (1, 1)])]), ('Polygon', [sq]), ('Polygon', [S([(0, 0), (6, 0), (6, 6), (0, 0)])]), ('LineString', S([(1, 1), (3, 3)])),
+                        ('LineString', S([(0, 0), (6, 0)])), ('Polygon', [S([(0, 0), (3, 0), (3, 3), (0, 3), (0, 0)])]), ('Point', S([(3, 3)])[0]), ('Polygon', [S([(6, 0), (9, 0), (9, 6), (6, 6), (6, 0)])])])
+    elif k == 'closed_open_lines':   # a closed line (no boundary) beside an open one, in both orders
+        cl = rng.choice([('LineString', S([(0, 0), (0, 6), (0, 0)])), ('LineString', S([(0, 0), (0, 6), (2, 2), (0, 0)])), ('LineString', S([(0, 0), (4, 0), (4, 4), (0, 4), (0, 0)]))])
+        op = rng.choice([('LineString', S([(9, 9), (9, 12)])), ('LineString', S([(0, 0), (-3, -3)])), ('LineString', S([(2, 2), (9, 2)]))])
+        els = [cl, op] if rng.random() < 0.5 else [op, cl]
+        A = (rng.choice(['MultiLineString', 'GeometryCollection']), els)
+        B = rng.choice([('Polygon', [S([(6, 0), (9, 6), (6, 6), (6, 0)])]), ('Point', S([(1, 1)])[0]), ('LineString', S([(20, 20), (21, 21)])), ('Polygon', [S([(0, 0), (4, 0), (4, 4), (0, 4), (0, 0)])]),
+                        ('Point', S([(9, 9)])[0]), ('LineString', S([(0, 0), (0, 6)])), ('MultiPoint', [('Point', S([(9, 12)])[0]), ('Point', S([(0, 3)])[0])])])
+    elif k == 'line_touch_line':     # a vertex of one line in the interior of a segment of another line of the same geometry
+        base = ('LineString', S([(0, 0), (12, 0), (12, 12), (0, 12), (0, 0)])) if rng.random() < 0.5 else ('LineString', S([(0, 0), (12, 0)]))
+        tch = rng.choice([('LineString', S([(6, 0), (6, 6)])), ('LineString', S([(6, -6), (6, 0), (9, 6)])), ('LineString', S([(3, 3), (6, 0), (9, 3)])), ('LineString', S([(6, 0), (9, 0)])),
+                          ('LineString', S([(6, 0), (18, 0)]))])
+        A = (rng.choice(['MultiLineString', 'GeometryCollection']), rng.choice([[base, tch], [tch, base]]))
+        B = rng.choice([('Polygon', [S([(0, 0), (12, 0), (12, 12), (0, 12), (0, 0)])]), ('LineString', S([(0, 0), (12, 0)])), ('LineString', S([(3, 0), (9, 0)])), ('Polygon', [S([(0, 0), (12, 0), (6, -6), (0, 0)])]),
+                        ('Polygon', [S([(0, 0), (12, 0), (6, 6), (0, 0)])]), ('Point', S([(6, 0)])[0]), ('LineString', S([(6, -3), (6, 3)])), ('Polygon', [S([(3, 0), (9, 0), (9, 3), (3, 3), (3, 0)])])])
     elif k == 'zero_len':
         A = rng.choice([('LineString', S([(1, 1), (1, 1)])), ('MultiLineString', [('LineString', S([(1, 1), (1, 1)])), ('LineString', S([(2, 2), (2, 2), (2, 2)]))]),
                         ('MultiLineString', [('LineString', S([(1, 1), (1, 1)])), ('LineString', S([(0, 0), (2, 2)]))]),
@@ -846,6 +881,15 @@ def run(ctx):
                               msg='oracle matrix %s contradicts the XML corpus expectation %s=%s (%s case %d): oracle or corpus is wrong' % (M[0], c.xml['pat'], c.xml['want'], c.xml['file'], c.xml['case']))
         # ---- implementation against the oracle
         bad = compare(ctx, c)
+        nfrag = int(m.get('fragile', '0'))
+        if nfrag:
+            dist['fragile_pairs'] = dist.get('fragile_pairs', 0) + 1
+        if bad and nfrag:
+            kf = ctx.known_match(lambda e: e.get('id') == 'C01-F3')
+            if kf:
+                dist['fragile_mismatch'] = dist.get('fragile_mismatch', 0) + 1
+                ctx.known_hit(kf)
+                continue
         if bad and nviol < 8:
             nviol += 1
             keys = set(k for k, _ in bad)
@@ -861,7 +905,8 @@ def run(ctx):
                                      out_of_scope_collections=dist['out_of_scope'], validity_disagreements_with_GEOSisValid=dist['validity_disagreements'],
                                      xml_relate_ops=len(xml), xml_checked=dist['xml_checked'], xml_skipped=dist['xml_skipped'],
                                      specification_cross_checked=dist['spec_checked'], invariance_cross_checked=dist['transform_checked'],
-                                     witnesses_total=dist['witnesses'], witnesses_max=dist['max_witnesses'])
+                                     witnesses_total=dist['witnesses'], witnesses_max=dist['max_witnesses'],
+                                     pairs_with_inexact_node_on_three_segments=dist.get('fragile_pairs', 0), of_which_disagree_known_finding_C01_F3=dist.get('fragile_mismatch', 0))
     for c in cases[:200:40]:
         ctx.sample('%s | %s | %s' % (c.kind, scaled_wkt(c.A, c.s)[:120], scaled_wkt(c.B, c.s)[:120]))
     if len(dist['matrices']) < 40:
